@@ -19,9 +19,10 @@ namespace SoyVerif.Lemmas.ParserAdj
 open SoyVerif SoyVerif.Model SoyVerif.Model.Parser SoyVerif.Model.PrintTokens SoyVerif.Model.Printer
 open SoyVerif.Lemmas.ParserToks
 
-/-- token types that can stand in front of an operand in printed tokens (`tInvalid` = start of input) -/
+/-- token types that can stand in front of an operand in printed tokens (`tInvalid` = start of input,
+    `tLeftDelim` = the `{` of a print command) -/
 def beforeOperand : List ItemType :=
-  [.tInvalid, .tLeftParen, .tLeftBracket, .tQuestionKey, .tComma, .tColon, .tTernIf, .tNot, .tNegate,
+  [.tInvalid, .tLeftDelim, .tLeftParen, .tLeftBracket, .tQuestionKey, .tComma, .tColon, .tTernIf, .tNot, .tNegate,
    .tMul, .tDiv, .tMod, .tAdd, .tSub, .tEq, .tNotEq, .tGt, .tGte, .tLt, .tLte, .tOr, .tAnd, .tElvis]
 
 /-- token types an operand can end with -/
